@@ -13,7 +13,7 @@ LEVEL_TEXT = ("the generator knows the declared signature of every exported func
               "both are rendered as canonical type strings (C type identity, typedef names and cv kept) and compared with the same strings "
               "resolved from the ABIXML.  Held = every exported interface of every explored program matches.")
 LEVEL_NOTE = ("constructs whose DWARF rendering is compiler-defined are not generated (top-level cv on by-value parameters, array "
-              "parameters); allowed normalisations: const void -> void, const reference -> reference")
+              "parameters); allowed normalisations: const void -> void (const volatile void -> volatile void), const reference -> reference")
 ASSUMPTIONS = [LEVEL_NOTE, "comparison is up to C type identity: a cv-qualified array is an array of cv-qualified elements"]
 
 
@@ -30,6 +30,7 @@ def rule(tier):
 def norm(k):
     """documented normalisations applied to both sides"""
     k = k.replace("const(void)", "void")
+    k = k.replace("const(volatile(void))", "volatile(void)")   # the const of a cv-qualified void is dropped the same way
     k = re.sub(r"const\((ref\([^()]*(?:\([^()]*\))*\))\)", r"\1", k)
     return k
 
